@@ -141,7 +141,8 @@ def gen_custom(rng, nprng, nmax):
     cos = gen_cosmo(rng)
     za = rng.choice([0.1, 0.1, rng.uniform(0.01, 2.0)])
     za2 = rng.uniform(0.01, 2.5)
-    m_true = rng.uniform(-20, 26)
+    # magnitudes relative to the population magnitude at the anchor are legitimate: m = 0 exactly
+    m_true = rng.choice([rng.uniform(-20, 26), rng.uniform(-20, 26), 0.0])
     noise = nprng.normal(0, 1, n) * np.sqrt(np.diag(cov)) * rng.choice([0.0, 1.0, 1.0, 5.0])
     mag = m_true + sne_moduli(cos, zhel, zcmb) - mu_anchor(cos, za) + noise
     sig = lambda: rng.choice([None, 0.0, rng.uniform(0.01, 0.6), rng.uniform(0.01, 0.6)])  # noqa: E731
@@ -153,7 +154,7 @@ def gen_custom(rng, nprng, nmax):
         "kind": "custom", "mag": mag.tolist(), "cov": cov.tolist(), "zhel": zhel.tolist(), "zcmb": zcmb.tolist(),
         "noscatter": rng.random() < 0.15, "cosmo": cos.to_json(), "za": za, "za2": za2,
         "k": math.exp(rng.uniform(math.log(1e-2), math.log(1e2))),
-        "m": m_true + rng.gauss(0, 0.3), "m_free": rng.random() < 0.4, "sigma": sig(), "calls": calls,
+        "m": (0.0 if m_true == 0.0 else m_true + rng.gauss(0, 0.3)), "m_free": rng.random() < 0.4, "sigma": sig(), "calls": calls,
         "ckind": ckind,
     }
 
